@@ -54,7 +54,7 @@ func (t *LastAccessTime) Movable() bool {
 
 // Serialize converts t to bytes.
 func (t *LastAccessTime) Serialize() ([]byte, error) {
-	b := make([]byte, 8)
+	b := make([]byte, binary.MaxVarintLen64)
 	binary.PutVarint(b, t.Time.Unix())
 	return b, nil
 }
